@@ -367,6 +367,7 @@ class ShadowStore:
                 self.dead = True
                 return
             rec.state = "used"
+            rec.tok = None      # no reference cycle: a token its client has forgotten is freed at once (address re-use is part of real use)
             self.grant["put"].remove(rec)
             item = info["item"]
             self.put_seq += 1
@@ -400,6 +401,7 @@ class ShadowStore:
                 self.dead = True
                 return
             rec.state = "used"
+            rec.tok = None
             self.grant["get"].remove(rec)
             item = result
             ir = self.held.get(id(item))
@@ -457,6 +459,7 @@ class ShadowStore:
                     if self.was_full_now():
                         self.stats["cancel_granted_put_while_full"] += 1
             rec.state = "cancelled"
+            rec.tok = None
             self.suspects.pop(rec, None)
         self.settle()
 
